@@ -124,8 +124,12 @@ def build(backend):
     add("md-new", "ds.Select(lambda e: e.Things('A').Select(lambda j: j.pt()))", [(ct, "A")], md=[good], headers=hdr, libs=lib)
     add("md-new-count-absent", "ds.Select(lambda e: e.Things('Z').Count())", [(ct, "Z")], md=[good], expect="loud", headers=hdr, libs=lib)
     add("md-new-twice", "ds.Select(lambda e: (e.Things('A').Count(), e.Things('B').Count()))", [(ct, "A"), (ct, "B")], md=[good], headers=hdr, libs=lib)
+    # the same declaration attached more than once (two parts of a query each carry it): one collection, coded once per use
+    add("md-declared-twice", "ds.Select(lambda e: e.Things('A').Select(lambda j: j.pt()))", [(ct, "A")], md=[good, dict(good)], headers=hdr, libs=lib)
+    add("md-declared-three-times", "ds.Select(lambda e: (e.Things('A').Count(), e.Things('B').Count()))", [(ct, "A"), (ct, "B")], md=[good, dict(good), dict(good)], headers=hdr, libs=lib)
     first = names[0]
     over = decl(backend, first, ct, et)
+    add("md-override-declared-twice", f"ds.Select(lambda e: e.{first}('A').Select(lambda j: j.pt()))", [(ct, "A")], md=[over, dict(over)], headers=[f"my/{first}.h"], libs=[f"lib{first}"] if backend == "atlas" else [])
     add("md-override-builtin", f"ds.Select(lambda e: e.{first}('A').Select(lambda j: j.pt()))", [(ct, "A")], md=[over], headers=[f"my/{first}.h"], libs=[f"lib{first}"] if backend == "atlas" else [])
     add("md-with-builtin", f"ds.Select(lambda e: (e.Things('A').Count(), e.{names[1]}('B').Count()))", [(ct, "A"), (colls[names[1]][0], "B")], md=[good],
         headers=hdr + [colls[names[1]][1]], libs=lib + [colls[names[1]][2]])
